@@ -255,7 +255,7 @@ pub fn run(ctx: &Ctx) -> Outcome {
             break;
         }
         let mut rng = Rng::derive(ctx.seed, 0xC08 + ctx.shard, i);
-        let mode = *rng.pick(&[UNIFORM, IDENTITY, CONSTANT, SAMEBIN, SPLITTING]);
+        let mode = *rng.pick(&[UNIFORM, IDENTITY, CONSTANT, SAMEBIN, SPLITTING, MODGROUPS, ALLHIGH]);
         let cap = *rng.pick(&[0usize, 1, 16, 64]);
         let counters = rng.range(1, 4);
         let threads = rng.range(2, 12) as usize;
